@@ -210,6 +210,16 @@ def lift(v, typ=None):
         else:
             raise Undecided(f'cannot lift {v!r}')
     k = typ.kind
+    if k == 'Set' and isinstance(v, (set, frozenset, list, tuple)):
+        t = z3.K(zsort(typ.args[0]), z3.BoolVal(False))
+        for x in v:
+            t = z3.Store(t, lift(x, typ.args[0]).t, z3.BoolVal(True))
+        return SV(typ, t)
+    if k == 'Seq' and isinstance(v, (list, tuple)):
+        arr = z3.K(z3.IntSort(), lift_default(typ.args[0]))
+        for i, x in enumerate(v):
+            arr = z3.Store(arr, i, lift(x, typ.args[0]).t)
+        return seq_mk(typ, arr, z3.IntVal(len(v)))
     if k == 'Int':
         return SV(INT, z3.IntVal(int(v)))
     if k == 'Bool':
@@ -224,6 +234,11 @@ def lift(v, typ=None):
             return SV(typ, s.none)
         return SV(typ, s.some(lift(v, typ.args[0]).t))
     raise Undecided(f'cannot lift {v!r} to {typ}')
+
+
+def lift_default(typ):
+    '''some term of the sort (padding of constant arrays)'''
+    return z3.Const('pad!' + _mangle(str(typ)), zsort(typ))
 
 
 def coerce(v, typ):
